@@ -493,6 +493,8 @@ func (g *genSession) genDatagram(r *rand.Rand, cfg genCfg, first bool) dgram {
 	hdr, hdrTxt := p.header(r, ver)
 	msg := hdr
 	var recs []string
+	longPad := 0  // longest set padding of more than 4 octets in this datagram (names a regression of F16: tag K3)
+	shortRec := 0 // length of the last data record of at most 4 octets in this datagram (names a regression of K2)
 	ns := 1 + r.Intn(4)
 	// templates announced in this datagram take effect for later sets of the same datagram
 	for i := 0; i < ns; i++ {
@@ -570,22 +572,37 @@ func (g *genSession) genDatagram(r *rand.Rand, cfg genCfg, first bool) dgram {
 			for j := 0; j < nr; j++ {
 				rb, vals := p.genRecord(r, t)
 				body = append(body, rb...)
-				if len(rb) <= 4 {
-					okSet = false // K2: records of <= 4 octets are taken for padding
+				if len(rb) == 0 {
+					okSet = false // a record of no octets (all field lengths 0) is reported as an error (F2)
 				}
 				if okSet {
 					recs = append(recs, expectRec(t, vals))
+					if len(rb) <= 4 {
+						shortRec = len(rb)
+					}
 				}
 			}
 			if !okSet {
 				wf = false
 			}
-			pad := r.Intn(4)
+			// RFC 7011 §3.3.1 (and the 4-octet alignment of RFC 3954): set padding is shorter than the shortest
+			// record the template can describe; 8-octet alignment gives up to 7 octets
+			maxPad := min(minRecLen(p, t)-1, 7)
+			if maxPad < 0 {
+				maxPad = 0
+			}
+			pad := r.Intn(min(maxPad, 3) + 1)
+			if r.Intn(3) == 0 {
+				pad = r.Intn(maxPad + 1)
+			}
 			if !cfg.wfOnly && r.Intn(10) == 0 {
-				pad = r.Intn(8)
-				if pad > 3 {
-					wf = false
+				pad = r.Intn(12)
+				if pad > maxPad {
+					wf = false // as long as a record: not padding
 				}
+			}
+			if pad > 4 && pad > longPad {
+				longPad = pad
 			}
 			body = append(body, make([]byte, pad)...)
 			msg = append(msg, p.set(r, cfg, t.id, body, &wf)...)
@@ -619,6 +636,14 @@ func (g *genSession) genDatagram(r *rand.Rand, cfg genCfg, first bool) dgram {
 	d := dgram{addr: addr, bytes: msg, wf: wf}
 	if wf {
 		d.expect = "msg " + hdrTxt + " errs= recs=" + strings.Join(recs, "")
+		// "K3 <n> <expected line>" / "K2 <n> <expected line>": the full expected decode is checked as for every
+		// other case; the tag only lets runDecode NAME a failure (long padding read as a record / short records
+		// dropped as padding: both repaired by the padding fix, known_findings F16 / K2)
+		if longPad > 0 {
+			d.expect = fmt.Sprintf("K3 %d %s", longPad, d.expect)
+		} else if shortRec > 0 {
+			d.expect = fmt.Sprintf("K2 %d %s", shortRec, d.expect)
+		}
 	}
 	return d
 }
@@ -818,17 +843,24 @@ func (p *flowProto) runDecode(st *state, line, expect string) (string, string) {
 		verdict = fmt.Sprintf("fail:records %d records from %d octets", out.nrec, len(dg))
 	case allocVerdict(ms1.TotalAlloc-ms0.TotalAlloc, len(dg), p.cache(st)) != "":
 		verdict = allocVerdict(ms1.TotalAlloc-ms0.TotalAlloc, len(dg), p.cache(st))
-	case strings.HasPrefix(expect, "K2 ") && ln != expect[5:]:
-		// witness of finding K2: "K2 <n> <expected line>", n = octets per record (<= 4). The finding is named only
-		// when the harness has itself checked that what is missing is exactly a tail of such short records.
+	case (strings.HasPrefix(expect, "K2 ") || strings.HasPrefix(expect, "K3 ")) && len(expect) > 5 && ln != expect[5:]:
+		// Regression names (both defects are repaired; a tagged case is an ordinary case whose expected line is
+		// checked in full, and a mismatch is an ordinary fail: verdict that no known finding matches).
+		// "K2 <n> <expected line>": the datagram has data records of n <= 4 octets; "K3 <n> <expected line>": it has
+		// n = 5..7 octets of set padding (shorter than the shortest record). The class is used only when the harness has
+		// itself checked that the difference is of that kind: K2 = what is missing is exactly a tail of records;
+		// K3 = the whole message was lost with a short read. Anything else is fail:roundtrip.
 		exp := expect[5:]
 		n := int(expect[3] - '0')
-		if n >= 1 && n <= 4 && strings.HasPrefix(exp, ln) && len(ln) < len(exp) && strings.HasPrefix(exp[len(ln):], "[") && !strings.HasSuffix(ln, "recs=") || n >= 1 && n <= 4 && strings.HasPrefix(exp, ln) && strings.HasSuffix(ln, "recs=") {
+		switch {
+		case expect[1] == '2' && n >= 1 && n <= 4 && strings.HasPrefix(exp, ln) && (len(ln) < len(exp) && strings.HasPrefix(exp[len(ln):], "[") || strings.HasSuffix(ln, "recs=")):
 			verdict = fmt.Sprintf("fail:short-record data records of %d octets at the end of a set were taken for padding and dropped: want %s got %s", n, clip(exp, 200), clip(ln, 200))
-		} else {
+		case expect[1] == '3' && n >= 5 && n <= 9 && ln == "nil short":
+			verdict = fmt.Sprintf("fail:long-padding %d octets of set padding (shorter than the shortest record of the template) were read as a data record and the whole message was lost: want %s got %s", n, clip(exp, 300), clip(ln, 200))
+		default:
 			verdict = "fail:roundtrip decoded message differs from the abstract message: want " + clip(exp, 400) + " got " + clip(ln, 400)
 		}
-	case strings.HasPrefix(expect, "K2 "):
+	case strings.HasPrefix(expect, "K2 ") || strings.HasPrefix(expect, "K3 "):
 	case expect != "" && expect != "-" && ln != expect:
 		verdict = "fail:roundtrip decoded message differs from the abstract message: want " + clip(expect, 400) + " got " + clip(ln, 400)
 	}
